@@ -181,14 +181,17 @@ def make_cases(pts, batch):
     return cases
 
 
-def _run_points(ctx, pts, batch=5000):
+def _run_points(ctx, pts, batch=5000, fpround=None):
     cases = []
     index = {}
     for i in range(0, len(pts), batch):
         chunk = pts[i:i + batch]
-        cid = "p%d" % i
+        cid = "p%s%d" % (fpround or "", i)
         index[cid] = chunk
-        cases.append({"id": cid, "ops": [{"op": "extents", "items": [[c, dbits(r)] for c, r in chunk]}]})
+        op = {"op": "extents", "items": [[c, dbits(r)] for c, r in chunk]}
+        if fpround:
+            op["fpround"] = fpround
+        cases.append({"id": cid, "ops": [op]})
 
     def on_result(res):
         chunk = index[res.case["id"]]
@@ -262,6 +265,16 @@ def run(ctx):
     ctx.assumptions += ["Python int arithmetic and int/int true division (correctly rounded) are the exact reference",
                         "every double is a sample rate (negative, NaN and infinite ones included); counts 0..2^62"]
     _run_points(ctx, pts)
+    # the same functions called while the thread's floating-point rounding mode is not round-to-nearest: the answers are defined
+    # by integer arithmetic and must not move.  (Counts stay below 2^53 here: beyond that the conversion of the rounded count to
+    # a double legitimately depends on the mode.)
+    # (likewise rates stay within [.., 2^31]: a quantisation number beyond 2^53 is converted to a double, too)
+    small = [(c, r) for c, r in pts if c < 2 ** 53 and (r != r or r <= 2.0 ** 31)]
+    for mode in ("down", "up", "zero"):
+        sub = small[::7] if ctx.tier == "quick" else small[::3]
+        sub += [(c, float(m * 210)) for m in (1, 2, 39, 105, 210, 228, 420, 840, 914) for c in (1, m * 420 - 1, m * 420, m * 420 + 1, 10 ** 7 + m)]
+        ctx.bump_in("points_run_under_a_non_default_rounding_mode", mode, len(sub))
+        _run_points(ctx, sub, fpround=mode)
     concurrent_stage(ctx)
 
 
@@ -275,3 +288,5 @@ def replay(ctx, doc):
     else:
         pts = [(r["count"], undbits(r["rate_bits"]))]
     _run_points(ctx, pts)
+    for mode in ("down", "up", "zero"):
+        _run_points(ctx, [p for p in pts if p[0] < 2 ** 53 and (p[1] != p[1] or p[1] <= 2.0 ** 31)], fpround=mode)
